@@ -443,3 +443,11 @@ func fieldOfLoad(v ssa.Value, typ, field string) (string, string, ssa.Value, boo
 	}
 	return "", "", nil, false
 }
+
+// setterStores records: the named setter stores into connection.<field> on every path.
+func (r *Run) setterStores(key, rule, fnName, field string) {
+	fn := r.W.MustFn(fnName)
+	r.mustPass(key, rule, fn, nil, []Start{Entry(fn)}, func(i ssa.Instruction) bool {
+		return isStoreToField(i, "connection", field) || isStoreToField(i, "connState", field)
+	}, nil, nil, "store to "+field+" on every path")
+}
